@@ -41,6 +41,9 @@ def obligations(tier):
                                ("RSI", dict(period=2), dict(name_suffix="1.5"), 5), ("STOCH", dict(period=2, slow_period=3, smoothing_k=2), dict(fullname_override="st.och"), 7),
                                ("TSI", dict(period=2, smooth_period=2), dict(name_suffix="t.s"), 6), ("VWAP", dict(), dict(name_suffix="v.w"), 4), ("aroon", dict(period=2), dict(fullname_override="ar.oon"), 4)):
         obs.append(Ob(f"{name}{kw}{extra}/n={n}", dict(spec=["ind", name, kw], n=n, extra=extra, posvol=(name == "VWAP")), NL, weight=n * 3, budget_s=300, max_paths=100000))
+    # the same definitions over the buckets of a collapsing timeframe that is fed live (one raw candle per append)
+    for name, kw, n in (("MACD", dict(fast_period=2, slow_period=3, signal_period=2), 10), ("ROC", dict(period=2), 8), ("OBV", dict(), 6), ("STOCH", dict(period=2, slow_period=2, smoothing_k=2), 8), ("RSI", dict(period=2), 8), ("TSI", dict(period=2, smooth_period=2), 10)) + ((("RSI", dict(period=3), 10),) if tier == "thorough" else ()):
+        obs.append(Ob(f"live-T2-feed/{name}{kw}/n={n}", dict(spec=["ind", name, kw], n=n, feed="live-T2"), NL, weight=n * 3, budget_s=300 if tier == "quick" else 2400, max_paths=100000))
     return obs
 
 
